@@ -111,3 +111,60 @@ def after_rejected_calls(rng, viol):
                     viol.append({"what": "result depends on an earlier rejected call: " + ctxt, "input": {"fn": fn, "args": list(a), "history": ctxt},
                                  "expected": exp, "observed": repr(obs)[:200]})
     return n
+
+
+def threaded_encoders(rng, viol, per_thread=250, nthreads=8):
+    """the randomised encoders called concurrently by `nthreads` threads (switch interval 1e-6): every block must still
+    have the standard's layout and decode to its PIN (shared fill generators, pooled entropy or module-level scratch
+    buffers only fail here).  -> number of calls"""
+    import sys
+    import threading
+    jobs = []
+    key = rng.randbytes(16)
+    for _ in range(nthreads * per_thread):
+        L = rng.randrange(4, 13)
+        jobs.append((rng.randrange(3), "".join(rng.choice(DIG) for _ in range(L)), "".join(rng.choice(DIG) for _ in range(rng.randrange(13, 20)))))
+    res = [None] * len(jobs)
+
+    def runner(t0):
+        for j in range(t0, len(jobs), nthreads):
+            kind, pin, pan = jobs[j]
+            try:
+                if kind == 0:
+                    b = pinblock.encode_pinblock_iso_3(pin, pan)
+                    res[j] = (b, pinblock.decode_pinblock_iso_3(b, pan))
+                elif kind == 1:
+                    f = pinblock.encode_pin_field_iso_4(pin)
+                    res[j] = (f, pinblock.decode_pin_field_iso_4(f))
+                else:
+                    e = pinblock.encipher_pinblock_iso_4(key, pin, pan)
+                    res[j] = (e, pinblock.decipher_pinblock_iso_4(key, e, pan))
+            except Exception as e:  # noqa: BLE001
+                res[j] = e
+
+    old = sys.getswitchinterval()
+    sys.setswitchinterval(1e-6)
+    try:
+        ths = [threading.Thread(target=runner, args=(k,)) for k in range(nthreads)]
+        for th in ths:
+            th.start()
+        for th in ths:
+            th.join()
+    finally:
+        sys.setswitchinterval(old)
+    names = ("encode_pinblock_iso_3", "encode_pin_field_iso_4", "encipher_pinblock_iso_4")
+    nv = 0
+    for (kind, pin, pan), r in zip(jobs, res):
+        ok = not isinstance(r, Exception) and r is not None and r[1] == pin
+        if ok and kind == 0:
+            nib = unmask(r[0], pan)
+            ok = nib[:2 + len(pin)] == [3, len(pin)] + [int(c) for c in pin] and all(x >= 10 for x in nib[2 + len(pin):]) and len(r[0]) == 8
+        if ok and kind == 1:
+            ok = len(r[0]) == 16 and o.nibbles(r[0])[:16] == o.pin_field4_nibbles(pin, b"")[:16]
+        if not ok:
+            nv += 1
+            if nv <= 10:
+                viol.append({"what": "randomised encoder called concurrently by %d threads: wrong layout / round trip / exception" % nthreads,
+                             "input": {"fn": names[kind], "args": [pin, pan] if kind != 1 else [pin], "history": "%d threads x %d mixed calls" % (nthreads, per_thread)},
+                             "expected": "block with the standard layout that decodes to the PIN", "observed": repr(r)[:200]})
+    return len(jobs)
